@@ -88,6 +88,15 @@ CLAIMS = {
          "manifolds on their side of the plane with volumes adding up is NOT decided here (listed as unverified)."),
    design='6 C09', technique='contract-based deductive verification: own VC generator over the clang AST (loop invariants with quantified list facts, ghost allocation watermark, reachability covers) + SMT (E-matching) + sympy ideal membership; native replay of refuted obligations',
    note=NOTE_COMMON + " OpenMP loop read sequentially. The geometric outcome of a division (closed daughters, volume split) is not under contract."),
+ 'C11': dict(
+   text=("Contracts on the real remeshing code over a full model of std::set<edge>: the mesh primitives (add_node, get_edge, delete_face, add_face) with "
+         "their data-structure invariants; split_edge: midpoint, momentum redistribution conserves the momentum of the three nodes, no surviving "
+         "node moves, requested triangles wound like the one they replace, no reference used after a possible reallocation; merge_edge: midpoint, "
+         "summed momentum, ends deleted, nothing else touched (topology of the collapse assumed); refine_mesh loop body: splits only above l_max, "
+         "merges only below l_min when can_be_merged says so, an edge inside the band changes nothing, per-iteration progress. Unbounded in mesh "
+         "size. Not decided: termination of the whole pass, edge swaps, collapse topology."),
+   design='6 C11', technique='contract-based deductive verification: own VC generator over the clang AST (std::set<edge> model, quantified data invariants, reference-epoch tracking, reachability covers) + SMT (E-matching) + sympy; native ASan replay',
+   note=NOTE_COMMON + " DYNAMIC_MODEL_INDEX=0. Thorough tier adds the topology contract of split_edge (callee preconditions at every call site)."),
  'C13': dict(
    text=("Slice of the property decided by contracts on the real code - the accept/reject gate, not the reconstruction: "
          "simulation_initializer::triangulate_surface returns only a cell whose validation (initialize_cell_properties) returned normally in the "
